@@ -217,7 +217,8 @@ Section Refine.
       destruct tddl, pm; reflexivity. Qed.
 
   Lemma T_offline c r : T (offline_chunks d c r) = abs (effective_tddl d c) (c_per_mig c) r.
-  Proof. unfold offline_chunks, abs. rewrite T_with_ctx, bt_as_sql, T_steps.
+  Proof. unfold offline_chunks, abs. change (init_external true (c_conn_in_txn c)) with false.
+    rewrite T_with_ctx, bt_as_sql, T_steps.
     destruct (effective_tddl d c), (c_per_mig c); reflexivity. Qed.
 End Refine.
 
@@ -550,3 +551,7 @@ Proof. intros Hwf. pose proof (C18_main_thm d c r Hwf) as H. unfold C18_holds, C
 Lemma table_thm (ds:list (option dialect)) : forallb table_wf_opt ds = true ->
   forall d c r, In (Some d) ds -> C18_holds (d, c, r) (offline_chunks d c r).
 Proof. intros H d c r Hin. rewrite forallb_forall in H. apply C18_main_thm. apply (H (Some d) Hin). Qed.
+
+Lemma conn_state_thm d tddl pm b r :
+  offline_chunks d (mkOcfg tddl pm b) r = offline_chunks d (mkOcfg tddl pm false) r.
+Proof. reflexivity. Qed.
